@@ -62,15 +62,15 @@ def impl_case(case):
     scratch = core.BUILD / "scratch" / f"{os.getpid()}"
     core.debug_logging(bool(case["cfg"].get("debug_log")))     # a share of the cases runs with DEBUG logging on
     if case["cfg"].get("cb_reenters"):
-        # the callback calls back into the gateway: a pump that blocks on itself is interrupted after 30 s
+        # the callback calls back into the gateway: a pump that blocks on itself is interrupted after 60 s
         import signal
 
         def _stuck(signum, frame):
             signal.alarm(5)
             from harness.impl.gwrun import PumpBlocked
-            raise PumpBlocked("the message pump blocked for 30 s (callback re-entering the gateway)")
+            raise PumpBlocked("the message pump blocked for 60 s (callback re-entering the gateway)")
         signal.signal(signal.SIGALRM, _stuck)
-        signal.alarm(30)
+        signal.alarm(60)
     im = gwrun.Impl(case["cfg"], scratch)
     mons = [monitors.REGISTRY[n]() for n in case.get("monitors", [])]
     trk = monitors.Tracker(im)
